@@ -145,10 +145,11 @@ def run_history(args):
                 events.append({"e": "Stale", "plugin": plugin})
                 continue
             model = models[a["model"] if a["valid"] else "bad"]
+            mlist = model if isinstance(model, list) else [model]
             hs = a["seed"] if a["seed"] != "r" else str(rnd.randint(2, 4000000))
             before = other_digest(plugin, out, test)
             env = dict(os.environ, PYTHONPATH=common.REPO, PYTHONHASHSEED=hs)
-            p = subprocess.run([common.PY, "-m", "generator", "--model", model, "--plugin", plugin, "--output-dir", out, "--test-dir", test],
+            p = subprocess.run([common.PY, "-m", "generator", "--model"] + mlist + ["--plugin", plugin, "--output-dir", out, "--test-dir", test],
                                cwd=common.REPO, env=env, stdout=subprocess.DEVNULL, stderr=subprocess.DEVNULL, timeout=1800)
             digest, n, uuid = snapshot(plugin, out, test)
             stale_left = [os.path.basename(pth) for pth, content in STALE[plugin](out, test)
@@ -198,8 +199,13 @@ def check_c16(tier):
         for h in histories(3):
             a = h["hist"]
             if (len(a) == 3 and a[0]["a"] == "Run" and a[1]["a"] == "Stale" and a[2]["a"] == "Run" and a[0]["valid"] and a[2]["valid"]
-                    and a[0]["seed"] == "0" and a[2]["seed"] == "1"):
+                    and a[0]["seed"] == "0" and a[2]["seed"] == "1" and a[0]["model"] != "C" and a[2]["model"] != "C"):
                 must.append(h)
+        # a list of two model files under different hash seeds (the merge order must be the command-line order)
+        for plugin in ("python", "rust", "dotnet"):
+            for seeds in (("0", "1"), ("1", "r"), ("r", "r")):
+                must.append({"plugin": plugin, "hist": [{"a": "Run", "model": "C", "seed": seeds[0], "valid": True},
+                                                        {"a": "Run", "model": "C", "seed": seeds[1], "valid": True}]})
     rnd = random.Random(common.seed())
     full = json.load(open(os.path.join(common.REPO, "generator", "lsp.json")))
     small = closed_submodel(full)
@@ -209,6 +215,11 @@ def check_c16(tier):
         for name, doc in (("A", full), ("B", evolved(full)), ("sA", small), ("sB", evolved(small))):
             paths[name] = os.path.join(work, name + ".json")
             json.dump(doc, open(paths[name], "w"))
+        ext = {"metaData": {"version": "0.0.1-ext"}, "requests": [], "notifications": [], "typeAliases": [],
+               "enumerations": [{"name": "VerifExtKind", "type": {"kind": "base", "name": "string"}, "values": [{"name": "A", "value": "a"}]}],
+               "structures": [{"name": "VerifExtStruct", "properties": [{"name": "kind", "type": {"kind": "reference", "name": "VerifExtKind"}}]}]}
+        paths["ext"] = os.path.join(work, "ext.json")
+        json.dump(ext, open(paths["ext"], "w"))
         bad = copy.deepcopy(small)
         bad["structures"][0]["properties"].append({"name": "verifBad", "type": 12345})
         paths["bad"] = os.path.join(work, "bad.json")
@@ -239,7 +250,8 @@ def check_c16(tier):
                     continue
             per_plugin[p] = per_plugin.get(p, 0) + 1
             small_models = p == "testdata" and tier == "quick"
-            models = {"A": paths["sA" if small_models else "A"], "B": paths["sB" if small_models else "B"], "bad": paths["bad"]}
+            models = {"A": paths["sA" if small_models else "A"], "B": paths["sB" if small_models else "B"], "bad": paths["bad"],
+                      "C": [paths["sA" if small_models else "A"], paths["ext"]]}
             jobs.append((p, h["hist"], models, work, len(jobs), common.seed()))
         with cf.ThreadPoolExecutor(max_workers=common.NCPU) as ex:
             runs = list(ex.map(run_history, jobs))
